@@ -1,6 +1,8 @@
 package c01
 
 import (
+	"regexp"
+	"strconv"
 	"strings"
 
 	"verif/lib/benchgen"
@@ -16,7 +18,19 @@ func enginePanic(stderr string) bool {
 	return strings.Contains(stderr, "(*Driver).runEngine") || strings.Contains(stderr, "driver.go") && strings.Contains(stderr, "Panic:")
 }
 
+var fullCheckRow = regexp.MustCompile(`BENCHRUN-FULLCHECK-FAIL matrixmultiplication: .*first: row (\d+) `)
+
 func matchKnown(c Case, o benchgen.Outcome) string {
+	// C01-K3: the shipped matrixmultiplication kernel takes the row of matrix A from the LOCAL
+	// work-item id, so only the rows computed by the first row of work-groups (rows 0..31 of the
+	// product) are right; the workload's Verify() compares one column only and does not notice.
+	// Signature: the worker's full comparison (not the workload's own verification) fails for
+	// matrixmultiplication and the first wrong element lies in row 32 or beyond.
+	if m := fullCheckRow.FindStringSubmatch(o.Stderr); m != nil && c.Workload == "matrixmultiplication" {
+		if row, err := strconv.Atoi(m[1]); err == nil && row >= 32 {
+			return "C01-K3"
+		}
+	}
 	// C01-K1: timing mode + unified memory + more than one GPU (always with a
 	// plain GPU set, with a unified device when a work-group touches a page that
 	// lives on another GPU): the first page migration crashes the command
